@@ -577,26 +577,31 @@ def variants_of(rng, L):
         kw['extra_redef'] = arg
     out.append(('layout:' + k + (':' + arg if arg else ''), True, clone(L), kw))
     edits = ['value', 'att', 'name', 'dimlen', 'record', 'format']
-    for e in rng.shuffle(edits)[:3]:
+    # boundary-directed edits first (last element of the last record / of an attribute), then random ones
+    for e in ['value-last', 'att-last'] + rng.shuffle(edits)[:3]:
         M = clone(L)
         tag = e
+        last = e.endswith('-last')
+        e = e.split('-')[0]
         if e == 'value':
             v = rng.choice([x for x in M['vars'] if x['data'] and x['data'][0]] or [None])
             if v is None:
                 continue
-            r = rng.below(len(v['data']))
-            i = rng.below(len(v['data'][r]))
+            r = rng.below(len(v['data'])) if not last else len(v['data']) - 1
+            i = rng.below(len(v['data'][r])) if not last else len(v['data'][r]) - 1
             v['data'][r][i] = v['data'][r][i] + 1 if v['xt'] != 'char' else (97 + (v['data'][r][i] - 96) % 26)
             tag = 'value:' + v['xt']
         elif e == 'att':
             cands = [(None, i) for i, a in enumerate(M['gatts']) if a[2]] + \
                     [(vi, i) for vi, v in enumerate(M['vars']) for i, a in enumerate(v['atts']) if a[2]]
+            if last:
+                cands = [c for c in cands if (c[0] is None) == rng.chance(1, 2)] or cands
             if not cands:
                 continue
             vi, i = rng.choice(cands)
             al = M['gatts'] if vi is None else M['vars'][vi]['atts']
             vals = list(al[i][2])
-            j = rng.below(len(vals))
+            j = rng.below(len(vals)) if not last else len(vals) - 1
             vals[j] = vals[j] + 1 if al[i][1] != 'char' else (97 + (vals[j] - 96) % 26)
             al[i] = [al[i][0], al[i][1], vals]
             tag = 'att:' + al[i][1]
